@@ -291,54 +291,24 @@ def run(rep: Report, tier: str) -> None:
 
     # ---- R32.2 ---------------------------------------------------------------------------------------------
     cg = callgraph(P)
-    reach = cg.reachable_from([f"{EXEC}.execute_queries"])
-    nsites = 0
-    for q in sorted(reach):
-        f = P.functions[q]
-        if not f.module.name.startswith("vtlengine.duckdb_transpiler"):
-            continue
-        for n in walk_no_nested(f.node):
-            if not (isinstance(n, ast.Call) and isinstance(n.func, ast.Attribute) and n.func.attr in ("execute", "sql") and n.args):
-                continue
-            sk = sqlx.skeleton_of(n.args[0])
-            text = sk[0] if sk else ""
-            if not text and isinstance(n.args[0], ast.Name):
-                # execute(var): look at the definitions of var in this function
-                for a in walk_no_nested(f.node):
-                    if isinstance(a, ast.Assign) and any(isinstance(t, ast.Name) and t.id == n.args[0].id for t in a.targets):
-                        s2 = sqlx.skeleton_of(a.value)
-                        if s2:
-                            text += " " + s2[0]
-                        else:
-                            text += " " + src(a.value)
-            up = text.upper()
-            evaluating = bool(re.search(r"CREATE TABLE .* AS |\bUPDATE\b.*\bSET\b|INSERT INTO", up, re.S)) or "VTL_" in up and "SELECT" in up
-            if not evaluating:
-                continue
-            nsites += 1
-            # enclosing try with a duckdb.Error handler (in this function, or in every caller one level up)
-            handler = enclosing_duckdb_handler(n)
-            where = f"{q}:{text.strip()[:30]}"
-            rep.instance("R32.2", where, nontrivial=True, sample={"site": f"{f.module.rel}:{n.lineno}", "sql": text.strip()[:60], "handler": handler})
-            if handler == "none":
-                # one level up: all callers wrap the call
-                callers = [c for c in cg.callers.get(q, ()) if c in reach]
-                wrapped = bool(callers) and all(any(enclosing_duckdb_handler(cs) in ("duckdb.Error",) for cs in cg.sites.get((c, q), [])) for c in callers)
-                if wrapped:
-                    continue
-                rep.add(Finding("R32.2", f"R32.2/unwrapped/{q}", f.module.rel, n.lineno, q,
-                                f"`{src(n)[:70]}` evaluates SQL over data outside any `except duckdb.Error` handler: a failing row surfaces as a raw "
-                                f"duckdb exception"))
-            elif handler != "duckdb.Error":
-                rep.add(Finding("R32.2", f"R32.2/narrow-handler/{q}", f.module.rel, n.lineno, q,
-                                f"the handler around `{src(n)[:50]}` catches {handler}, not duckdb.Error: other DuckDB error classes "
-                                f"(OutOfRange, Binder, …) bypass the VTL error mapping"))
-    rep.floor("data-evaluating execute sites", nsites, 4)
+    nsites = execute_sites_wrapped(P, rep, "R32.2")
+    duckdb_handlers_reraise(P, rep, "R32.2")
     # the statement handler maps through _map_query_error and re-raises the mapped error
     eq = P.func(f"{EXEC}.execute_queries")
     hs = [h for n in walk_no_nested(eq.node) if isinstance(n, ast.Try) for h in n.handlers if h.type is not None and "duckdb.Error" in src(h.type)]
     rep.instance("R32.2", "statement-handler-maps", nontrivial=True)
-    if not hs or not any(isinstance(x, ast.Call) and getattr(x.func, "id", "") == "_map_query_error" for x in ast.walk(hs[0])):
+    def _maps(h: ast.AST, depth: int = 0) -> bool:
+        for x in ast.walk(h):
+            if isinstance(x, ast.Call):
+                if getattr(x.func, "id", "") == "_map_query_error":
+                    return True
+                if depth < 2:
+                    for t in P.resolve_call(eq, x):
+                        g_ = P.functions.get(t)
+                        if g_ is not None and g_.module.name.startswith("vtlengine.duckdb_transpiler") and _maps(g_.node, depth + 1):
+                            return True
+        return False
+    if not hs or not _maps(hs[0]):
         rep.add(Finding("R32.2", "R32.2/statement-handler-maps", eq.module.rel, eq.node.lineno, eq.qualname,
                         "the statement-execution handler no longer maps duckdb.Error through _map_query_error"))
     # fall-through of the mapper: `return error` makes the caller re-raise the raw error
@@ -798,3 +768,107 @@ def mapper_partial_operations(P: Program, rep: Report, rule: str) -> None:
 def _strip_sql_comments(t: str) -> str:
     t = re.sub(r"/\*.*?\*/", " ", t, flags=re.S)
     return re.sub(r"--[^\n]*", " ", t)
+
+
+def execute_sites_wrapped(P: Program, rep: Report, rule: str) -> int:
+    """Every conn.execute reachable from execute_queries whose SQL evaluates expressions over data (CREATE TABLE AS, UPDATE SET, INSERT,
+    SELECT over vtl_ macros) sits inside an `except duckdb.Error` handler (its own or every caller's).  Shared with C01: a scalar-level
+    domain error (ln(0), division by zero) raised by the engine must come back as the VTL error of the operator."""
+    cg = callgraph(P)
+    cg = callgraph(P)
+    reach = cg.reachable_from([f"{EXEC}.execute_queries"])
+    nsites = 0
+    for q in sorted(reach):
+        f = P.functions[q]
+        if not f.module.name.startswith("vtlengine.duckdb_transpiler"):
+            continue
+        for n in walk_no_nested(f.node):
+            if not (isinstance(n, ast.Call) and isinstance(n.func, ast.Attribute) and n.func.attr in ("execute", "sql") and n.args):
+                continue
+            sk = sqlx.skeleton_of(n.args[0])
+            text = sk[0] if sk else ""
+            if not text and isinstance(n.args[0], ast.Name):
+                # execute(var): look at the definitions of var in this function
+                for a in walk_no_nested(f.node):
+                    if isinstance(a, ast.Assign) and any(isinstance(t, ast.Name) and t.id == n.args[0].id for t in a.targets):
+                        s2 = sqlx.skeleton_of(a.value)
+                        if s2:
+                            text += " " + s2[0]
+                        else:
+                            text += " " + src(a.value)
+            up = text.upper()
+            evaluating = bool(re.search(r"CREATE TABLE .* AS |\bUPDATE\b.*\bSET\b|INSERT INTO", up, re.S)) or "VTL_" in up and "SELECT" in up
+            if not evaluating:
+                continue
+            nsites += 1
+            # enclosing try with a duckdb.Error handler (in this function, or in every caller one level up)
+            handler = enclosing_duckdb_handler(n)
+            where = f"{q}:{text.strip()[:30]}"
+            rep.instance(rule, where, nontrivial=True, sample={"site": f"{f.module.rel}:{n.lineno}", "sql": text.strip()[:60], "handler": handler})
+            if handler == "none":
+                # one level up: all callers wrap the call
+                callers = [c for c in cg.callers.get(q, ()) if c in reach]
+                wrapped = bool(callers) and all(any(enclosing_duckdb_handler(cs) in ("duckdb.Error",) for cs in cg.sites.get((c, q), [])) for c in callers)
+                if wrapped:
+                    continue
+                rep.add(Finding(rule, f"{rule}/unwrapped/{q}", f.module.rel, n.lineno, q,
+                                f"`{src(n)[:70]}` evaluates SQL over data outside any `except duckdb.Error` handler: a failing row surfaces as a raw "
+                                f"duckdb exception"))
+            elif handler != "duckdb.Error":
+                rep.add(Finding(rule, f"{rule}/narrow-handler/{q}", f.module.rel, n.lineno, q,
+                                f"the handler around `{src(n)[:50]}` catches {handler}, not duckdb.Error: other DuckDB error classes "
+                                f"(OutOfRange, Binder, …) bypass the VTL error mapping"))
+    rep.floor(f"{rule} data-evaluating execute sites", nsites, 4)
+    return nsites
+
+
+HANDLER_SWALLOWS_REVIEWED = {
+    "vtlengine.duckdb_transpiler.io._io._detect_csv_format": "format sniffing: a failed sniff falls back to the default delimiter; the load that follows is wrapped on its own",
+}
+
+
+def _always_raises(P: Program, f: FuncInfo, body: List[ast.stmt], depth: int = 0) -> bool:
+    """every path through `body` ends in a raise (structural: raise / if-else both raising / a call to a helper every path of which raises)"""
+    for st in body:
+        if isinstance(st, ast.Raise):
+            return True
+        if isinstance(st, ast.If) and st.orelse and _always_raises(P, f, st.body, depth) and _always_raises(P, f, st.orelse, depth):
+            return True
+        if isinstance(st, ast.Expr) and isinstance(st.value, ast.Call) and depth < 2:
+            ts = [P.functions.get(t) for t in P.resolve_call(f, st.value)]
+            if ts and all(g_ is not None and _always_raises(P, g_, g_.node.body, depth + 1) for g_ in ts):  # type: ignore[attr-defined]
+                return True
+        if isinstance(st, (ast.Return, ast.Continue, ast.Break)):
+            return False
+        if isinstance(st, ast.Try) and st.finalbody and _always_raises(P, f, st.finalbody, depth):
+            return True
+    return False
+
+
+def duckdb_handlers_reraise(P: Program, rep: Report, rule: str) -> None:
+    """No handler of a DuckDB error in the execution / loading modules completes normally: every path through it raises (the mapped VTL error,
+    or the original).  A handler that maps what it can and then falls out swallows every unmapped engine failure (out of memory, I/O,
+    interrupt): the run carries on and returns a result the failed step never produced.  Shared with C16."""
+    n = 0
+    for f in P.iter_functions():
+        if not f.qualname.startswith("vtlengine.duckdb_transpiler.io."):
+            continue
+        for t in walk_no_nested(f.node):
+            if not isinstance(t, ast.Try):
+                continue
+            for h in t.handlers:
+                ty = src(h.type) if h.type is not None else "<bare>"
+                if "duckdb" not in ty:
+                    continue
+                n += 1
+                ok = _always_raises(P, f, h.body)
+                rep.instance(rule, f"handler/{f.qualname}/{ty}", nontrivial=True, sample={"function": f.qualname, "catches": ty, "every_path_raises": ok})
+                if ok:
+                    continue
+                if f.qualname in HANDLER_SWALLOWS_REVIEWED:
+                    rep.exemption(rule, f"handler/{f.qualname}/{ty}", HANDLER_SWALLOWS_REVIEWED[f.qualname])
+                    continue
+                rep.add(Finding(rule, f"{rule}/handler-falls-through/{f.qualname}", f.module.rel, h.lineno, f.qualname,
+                                f"the `except {ty}` handler of {f.qualname} has a path that neither raises the mapped error nor re-raises the original: a DuckDB failure without a VTL "
+                                f"mapping (out of memory, disk full, interrupt) is swallowed there and the run continues with whatever the failed step left behind"))
+    rep.floor(f"{rule} duckdb handlers", n, 6)
